@@ -117,6 +117,92 @@ def run_hp(ctx, r, drv):
             r.sample({'hpq': cid, 'nw': nw, 'nhp': nhp, 'high': hi, 'observed': got})
 
 
+def run_yld(ctx, r, h):
+    """session h12b — suspending a processing unit that runs YIELDING tasks while no other worker is idle (case kind YLD of
+    harness/c19_sr.cpp, own process per pool configuration).  Monitors only (model side: Model/SuspendResumeYield.v)."""
+    work = '%s/c19' % BUILD
+    os.makedirs(work, exist_ok=True)
+    cfgs = [(3, 1, 1, 'local_priority_fifo'), (2, 1, 1, 'local_priority_fifo'), (4, 1, 1, 'local_priority_fifo'), (3, 1, 0, 'local_priority_fifo'),
+            (4, 1, 0, 'static_priority'), (2, 1, 1, 'local')]
+    ncase = 6 if ctx.tier == 'quick' else 60
+    nhit = 0
+    for ci, (nw, el, st, pol) in enumerate(cfgs):
+        if nhit >= 3:
+            r.notes.append('YLD: three calls did not return; remaining configurations skipped')
+            break
+        rng = random.Random(ctx.seed * 104729 + ci * 7919 + 5)
+        cases = ['YLD y%d %d' % (k, rng.randrange(1, 1 << 30)) for k in range(ncase)]
+        cf = '%s/yld_%d.txt' % (work, ci)
+        open(cf, 'w').write('\n'.join(cases) + '\n')
+        cfgs_ = 'nw=%d el=%d st=%d' % (nw, el, st)
+        rc, out = sh([h, cf, str(nw), str(el), str(st), pol, str(ctx.seed)], timeout=900 if ctx.tier == 'quick' else 3000)
+        outs = {}
+        for ln in out.split('\n'):
+            p = ln.split(' ', 3)
+            if ln.startswith('OUT YLD ') and len(p) >= 4:
+                outs[p[2]] = p[3]
+        if rc != 0 and not any(o.startswith('HANG') for o in outs.values()):
+            r.hits.append(Hit('monitor' if rc in (3, 124, -6, -11, 134, 139) else 'tie', 'C19:harness_died:YLD',
+                              'the runtime harness died (rc=%s) in configuration %s %s during the YLD cases: %s' % (rc, cfgs_, pol, out[-600:]),
+                              {'harness': 'c19_sr', 'config': [nw, el, st, pol], 'cases': cases, 'rc': rc}))
+        for c in cases:
+            cid = c.split(' ')[1]
+            o = outs.get(cid)
+            rep = {'harness': 'c19_sr', 'config': [nw, el, st, pol], 'seed': ctx.seed, 'case': c}
+            if o is None:
+                continue
+            kvs = dict(x.split('=', 1) for x in o.split(' ') if '=' in x)
+            if kvs.get('skipped') == '1':
+                continue
+            r.evaluations += 1
+            if o.startswith('HANG'):
+                nhit += 1
+                r.hits.append(Hit('monitor', 'C19:hang:YLD', 'a call did not return within the watchdog limit (%s %s, case %s): %s' % (cfgs_, pol, c, o), rep))
+                continue
+            if kvs.get('setup') != '1':
+                # machine too loaded for the busy tasks / pollers to start: INCONCLUSIVE, never an alarm
+                r.notes.append('YLD case INCONCLUSIVE (busy tasks or pollers did not start within 8 s; not judged): %s %s %s %s' % (cfgs_, pol, c, o[:160]))
+                r.count('YLD inconclusive %s' % cfgs_)
+                continue
+            var = kvs.get('variant')
+            r.count('YLD variant=%s caller=%s %s %s' % (var, kvs.get('caller'), cfgs_, pol))
+            r.nontrivial('%s %s %s' % (cfgs_, pol, c))
+            w_ = int(kvs.get('w', 0))
+            if int(kvs.get('lost', 0)) > 0 or kvs.get('all') != '1':
+                r.hits.append(Hit('monitor', 'C19:ledger:lost', 'a submitted task never ran although every processing unit was resumed (%s %s, case %s): %s' % (cfgs_, pol, c, o), rep))
+            if int(kvs.get('dup', 0)) > 0:
+                r.hits.append(Hit('monitor', 'C19:ledger:dup', 'a task ran more than once (%s %s, case %s): %s' % (cfgs_, pol, c, o), rep))
+            if kvs.get('returned') != '1':
+                nhit += 1
+                what = 'blocked_by_yielding_task' if var == 'y' else 'blocked_by_woken_task'
+                r.hits.append(Hit('monitor', 'C19:suspend_pu:' + what,
+                                  'suspend_processing_unit_direct(%d) (issued from %s) did not return within 12 s: %s task(s) on worker %d %s, every other worker is occupied by a '
+                                  'non-yielding task; the tasks kept running on the unit that is being suspended (%s polls on worker %d after the request, states %s) instead of '
+                                  'being moved to an active worker (%s %s, case %s): %s'
+                                  % (w_, 'an OS thread' if kvs.get('caller') == 'o' else 'a task of the default pool', kvs.get('K'), w_,
+                                     'poll a flag with pika::this_thread::yield()' if var == 'y' else 'were woken (last worker = that unit) after it had entered pre_sleep and then poll with yield()',
+                                     kvs.get('polls_on_w_after_request'), w_, kvs.get('states_at_return'), cfgs_, pol, c, o), rep))
+                continue
+            sts = kvs.get('states_at_return', '').split(',')
+            if kvs.get('err') != '0':
+                r.hits.append(Hit('monitor', 'C19:supported_call_failed', 'suspend of a processing unit that runs yielding tasks reported an error (%s %s, case %s): %s' % (cfgs_, pol, c, o), rep))
+            elif len(sts) > w_ and sts[w_] != '8':
+                r.hits.append(Hit('monitor', 'C19:suspend_pu:returned_not_sleeping',
+                                  'suspend_processing_unit_direct(%d) returned but the worker is in state %s, not sleeping (%s %s, case %s): %s' % (w_, sts[w_], cfgs_, pol, c, o), rep))
+            if kvs.get('progress_all') != '1':
+                r.hits.append(Hit('monitor', 'C19:suspend_pu:yielding_task_stalled',
+                                  'after suspend_processing_unit_direct(%d) returned and the remaining workers were released the yielding tasks made no progress within 10 s '
+                                  '(%s %s, case %s): %s' % (w_, cfgs_, pol, c, o), rep))
+            elif kvs.get('fin_before_resume') != '1':
+                r.hits.append(Hit('monitor', 'C19:suspend_pu:yielding_task_not_finished_before_resume',
+                                  'the yielding tasks did not finish on the remaining workers within 10 s after their flag was set, before any resume (%s %s, case %s): %s' % (cfgs_, pol, c, o), rep))
+            if kvs.get('body_on_suspended') != '0':
+                r.hits.append(Hit('monitor', 'C19:body_on_suspended_pu', 'a yielding task ran on processing unit %d after its suspend call had returned and before any resume '
+                                  'was issued (%s %s, case %s)' % (w_, cfgs_, pol, c), rep))
+            if len(r.samples) < 10 and cid in ('y0', 'y1'):
+                r.sample({'config': cfgs_ + ' ' + pol, 'yld': c, 'observed': o[:300]})
+
+
 def run(ctx):
     r = Result()
     r.rule = ('per pool configuration (workers, elasticity, stealing, scheduling policy): SEQ = sequential histories of suspend/resume '
@@ -129,7 +215,10 @@ def run(ctx):
               'when suspend_processing_unit_direct(w) is issued from an OS thread or a task of the default pool; they are released only after the call '
               'returned: monitors = the call returns within 10 s with w sleeping and no error, tasks then submitted to the remaining workers run '
               'without a resume, the released tasks finish (before or after the resume, ledger), none continues on the suspended unit. Non-trivial SEQ case: contains a suspend and a later '
-              'submission; distinct = distinct (configuration, history)')
+              'submission; distinct = distinct (configuration, history). YLD (elastic pools of 2-4 workers, own process per configuration) = every worker but one is occupied by a non-yielding busy task, '
+              'on the remaining worker w 1-3 tasks loop on pika::this_thread::yield() polling a flag (variant y) or are blocked on a latch with last worker w and woken after w entered pre_sleep '
+              '(variant k, a busy task keeps w occupied meanwhile); suspend_processing_unit_direct(w) from an OS thread / a default-pool task must return within 12 s (flag set only afterwards), w sleeping, '
+              'the pollers make progress on the released remaining workers, never on w, finish before the resume; INCONCLUSIVE (not judged) when the busy tasks did not start within 8 s')
     ctx.build_pika()
     drv = ctx.build_model('C19', 'ExtractC19.v', 'drv_c19.ml')
     h = ctx.build_harness('c19_sr', 'c19_sr.cpp')
@@ -421,4 +510,6 @@ def run(ctx):
                     r.sample({'config': cfgs + ' ' + pol, 'conc': c, 'observed': o})
     r.extra['configurations'] = ['nw=%d el=%d st=%d %s' % tuple(c) for c in cfg_list]
     run_hp(ctx, r, drv)
+    if not ctx.replay:
+        run_yld(ctx, r, h)
     return r
